@@ -59,6 +59,9 @@ long kmax;                                         /* every block number of a re
  * (CX4 relation, permutation) is the object g_ghost_part, every other one the scratch object g_other_part. */
 //@tu src/pomerol/TwoParticleGFPart.cpp
 //@struct Pomerol::TwoParticleGFPart only=Status,ReduceResonanceTolerance,CoefficientTolerance,MultiTermCoefficientTolerance
+//@extra
+unsigned long n_compute, n_eval, n_clear, evals_at_clear;   /* ghost: calls of compute() / operator() / clear(), evaluations seen when clear() was called */
+//@end
 //@tu src/pomerol/TwoParticleGF.cpp
 struct TwoParticleGFPart g_ghost_part, g_other_part;
 
@@ -281,7 +284,7 @@ __CPROVER_loop_invariant(include_block_retained == ((k > 0 && RET(LeftIndices[0]
 __CPROVER_decreases(4 - k)
 //@end
 
-//@harness h_TPGF_prepare enforce=TwoParticleGF_prepare props=C02,C19 min_obl=500 timeout=900 reach=5
+//@harness h_TPGF_prepare enforce=TwoParticleGF_prepare props=C02,C19 min_obl=3500 timeout=600 reach=5
 void h_TPGF_prepare(void)
 {
   struct TwoParticleGF *g;
@@ -290,3 +293,171 @@ void h_TPGF_prepare(void)
   else if (g_n_new == 0) REACH("exit_vanishing");
   else REACH("exit_parts");
 }
+
+/* ================================================================================================================
+ * Evaluation (TwoParticleGF.h: "Returns the value of the Green's function calculated at a given frequency"; "It is actually a
+ * container class for a collection of parts"):  chi(z1,z2,z3) = sum over the parts of part(z1,z2,z3);  0 if Vanishing;
+ * chi(n1,n2,n3) = chi(MatsubaraSpacing*(2n1+1), MatsubaraSpacing*(2n2+1), MatsubaraSpacing*(2n3+1))  (fermionic frequencies).
+ * The value of ONE part (TwoParticleGFPart::operator(), under contract in tpgfpart.c) is an opaque function of (position in the
+ * vector, arguments).  As in susc.c the sum is stated through a MODEL g_sum that the part-evaluation monitor advances by
+ * `sum := sum + value` at every call; the loop invariant forces the accumulator to equal the model (bit pattern), the ghost
+ * position proves that an arbitrary part is evaluated exactly once (none if Vanishing). */
+double __CPROVER_uninterpreted_partval_re(long, double, double, double, double, double, double);
+double __CPROVER_uninterpreted_partval_im(long, double, double, double, double, double, double);
+cplx g_sum;                       /* model of the running sum */
+unsigned long g_sum_re, g_sum_im; /* its bit pattern (loop invariants may not call d_bits) */
+cplx g_z1, g_z2, g_z3;            /* the arguments every part must be evaluated at */
+long g_evals;                     /* evaluations of the part at the ghost position */
+static inline _Bool PartVec_wf(PartVec *v)
+{ return v->n <= PV_MAX && __CPROVER_is_fresh(v->items, v->n * sizeof(struct TwoParticleGFPart *)) && (v->gidx == -1 || (0 <= v->gidx && v->gidx < (long)v->n)); }
+#define PartVec_begin(v_) ((PartVecIt){ (v_), 0 })
+#define PartVec_end(v_) ((PartVecIt){ (v_), (long)(v_)->n })
+#define op_ne_PartVecIt_PartVecIt(a, b) ((a)->pos != (b)->pos)
+#define PartVecIt_postinc(it) ({ __CPROVER_assert(0 <= (it)->pos && (it)->pos < (long)(it)->v->n, "std::vector: end() is not incremented"); (it)->pos++; })
+#define PartVecIt_mul(it) ({ \
+  __CPROVER_assert(0 <= (it)->pos && (it)->pos < (long)(it)->v->n, "std::vector: iterator dereferenced only before end()"); \
+  (it)->v->last_pos = (it)->pos; \
+  &(it)->v->items[(it)->pos]; })
+static inline cplx part_value(long k, cplx z1, cplx z2, cplx z3)
+{ return cplx_ctor2(__CPROVER_uninterpreted_partval_re(k, z1.re, z1.im, z2.re, z2.im, z3.re, z3.im), __CPROVER_uninterpreted_partval_im(k, z1.re, z1.im, z2.re, z2.im, z3.re, z3.im)); }
+struct ComputeAndClearWrap;
+struct ComputeAndClearWrap *g_wrap;     /* ComputeAndClearWrap::run(): the wrapper under verification (then g_self is unused) */
+cplx TwoParticleGFPart_call_in_run(struct TwoParticleGFPart *part, cplx z1, cplx z2, cplx z3);
+cplx TwoParticleGFPart_call(struct TwoParticleGFPart *part, cplx z1, cplx z2, cplx z3)
+{
+  if (g_wrap) return TwoParticleGFPart_call_in_run(part, z1, z2, z3);
+  PartVec *v = &g_self->parts; long k = v->last_pos;
+  __CPROVER_assert(0 <= k && k < (long)v->n && part == v->items[k], "C02: the part evaluated is the vector element the iterator is on");
+  __CPROVER_assert(C_SAME(z1, g_z1) && C_SAME(z2, g_z2) && C_SAME(z3, g_z3), "C02: every part is evaluated at the frequencies (z1,z2,z3)");
+  cplx r = part_value(k, z1, z2, z3);
+  g_sum = op_add_cplx_cplx(g_sum, r);
+  g_sum_re = d_bits(g_sum.re); g_sum_im = d_bits(g_sum.im);
+  if (k == v->gidx) g_evals++;
+  REACH("part_eval");
+  return r;
+}
+#define SUM_IS_ZERO (g_sum_re == 0 && g_sum_im == 0 && BITS(g_sum.re) == 0 && BITS(g_sum.im) == 0)
+#define EXPECTED_EVALS(self) ((!(self)->Vanishing && (self)->parts.gidx >= 0) ? 1 : 0)
+
+//@rename TwoParticleGF_call/3 => TwoParticleGF_call_z
+//@function Pomerol::TwoParticleGF::operator()(std::complex<double>, std::complex<double>, std::complex<double>) const as TwoParticleGF_call_z
+//@contract
+__CPROVER_requires(__CPROVER_is_fresh(self, sizeof(*self)) && g_self == self)
+__CPROVER_requires(PartVec_wf(&self->parts) && g_evals == 0 && SUM_IS_ZERO && C_SAME(g_z1, z1) && C_SAME(g_z2, z2) && C_SAME(g_z3, z3))
+__CPROVER_assigns(g_sum, g_sum_re, g_sum_im, g_evals, self->parts.last_pos)
+/* an arbitrary part is evaluated exactly once, none if the function vanishes */
+__CPROVER_ensures(g_evals == EXPECTED_EVALS(self))
+/* Vanishing => 0; otherwise the sum of the part values (each at (z1,z2,z3): monitor) */
+__CPROVER_ensures(self->Vanishing ==> (SUM_IS_ZERO && C_SAME(__CPROVER_return_value, cplx_ctor1(0.0))))
+__CPROVER_ensures(C_SAME(__CPROVER_return_value, g_sum))
+//@loop 1
+__CPROVER_assigns(iter.pos, Value, g_sum, g_sum_re, g_sum_im, g_evals, self->parts.last_pos)
+__CPROVER_loop_invariant(iter.v == &self->parts && 0 <= iter.pos && iter.pos <= (long)self->parts.n)
+__CPROVER_loop_invariant(BITS(Value.re) == g_sum_re && BITS(Value.im) == g_sum_im && BITS(g_sum.re) == g_sum_re && BITS(g_sum.im) == g_sum_im)
+__CPROVER_loop_invariant(g_evals == ((self->parts.gidx >= 0 && iter.pos > self->parts.gidx) ? 1 : 0))
+__CPROVER_decreases((long)self->parts.n - iter.pos)
+//@end
+
+//@function Pomerol::TwoParticleGF::operator()(long, long, long) const as TwoParticleGF_call_n
+//@contract
+/* LIMIT: 2*n+1 must be representable (|n| < 2^62) */
+__CPROVER_requires(-(1L << 62) <= MatsubaraNumber1 && MatsubaraNumber1 < (1L << 62) && -(1L << 62) <= MatsubaraNumber2 && MatsubaraNumber2 < (1L << 62) &&
+                   -(1L << 62) <= MatsubaraNumber3 && MatsubaraNumber3 < (1L << 62))
+__CPROVER_requires(__CPROVER_is_fresh(self, sizeof(*self)) && g_self == self)
+__CPROVER_requires(PartVec_wf(&self->parts) && g_evals == 0 && SUM_IS_ZERO)
+/* fermionic Matsubara frequencies: z_j = MatsubaraSpacing * (2 n_j + 1) */
+__CPROVER_requires(C_SAME(g_z1, op_mul_cplx_double(self->MatsubaraSpacing, (double)(2 * MatsubaraNumber1 + 1))) &&
+                   C_SAME(g_z2, op_mul_cplx_double(self->MatsubaraSpacing, (double)(2 * MatsubaraNumber2 + 1))) &&
+                   C_SAME(g_z3, op_mul_cplx_double(self->MatsubaraSpacing, (double)(2 * MatsubaraNumber3 + 1))))
+__CPROVER_assigns(g_sum, g_sum_re, g_sum_im, g_evals, self->parts.last_pos)
+__CPROVER_ensures(g_evals == EXPECTED_EVALS(self))
+__CPROVER_ensures(C_SAME(__CPROVER_return_value, g_sum) && (!self->Vanishing || SUM_IS_ZERO))
+//@end
+
+//@harness h_TPGF_call_z enforce=TwoParticleGF_call_z props=C02 min_obl=100 timeout=300 reach=2
+void h_TPGF_call_z(void) { struct TwoParticleGF *g; cplx z1, z2, z3; TwoParticleGF_call_z(g, z1, z2, z3); REACH("exit"); }
+
+//@harness h_TPGF_call_n enforce=TwoParticleGF_call_n props=C02 min_obl=100 timeout=300 reach=2
+void h_TPGF_call_n(void) { struct TwoParticleGF *g; long n1, n2, n3; TwoParticleGF_call_n(g, n1, n2, n3); REACH("exit"); }
+
+/* ================================================================================================================
+ * ComputeAndClearWrap::run()  ("An mpi adapter to 1) compute 2pgf terms; 2) convert them to a Matsubara Container; 3) purge terms"):
+ *   the part is computed first (once); if `fill`: for every frequency index w  data[w] += part(freqs[w])  exactly once -- ghost index
+ *   gidx of the table: data[gidx] == old(data[gidx]) + part(z1,z2,z3 of freqs[gidx]), one access; the table keeps its length; if `clear`:
+ *   the part is cleared, once, after all evaluations.  part(...) = TwoParticleGFPart::operator() is an opaque function of the
+ *   frequencies (contract in tpgfpart.c).  The OpenMP pragmas are dropped by the extractor (sequential view; the iterations write
+ *   disjoint data[w]). */
+#define FV_MAX 2147483647UL      /* LIMIT: `int wsize = freqs_->size()` wraps for longer lists */
+typedef struct FreqTuple { cplx z0, z1, z2; } FreqTuple;
+typedef struct FreqVec { unsigned long size; FreqTuple *data; } FreqVec;
+typedef struct CplxVec { unsigned long size; cplx *data; /* ghost */ unsigned long gidx, ghits; } CplxVec;
+static inline unsigned long FreqVec_size(FreqVec *v) { return v->size; }
+static inline FreqTuple *FreqVec_at(FreqVec *v, unsigned long i)
+{
+  __CPROVER_assert(i < v->size, "std::vector<freq_tuple>::operator[] inside the vector");
+  return &v->data[i];
+}
+#define FreqTuple_get0(t) (&(t)->z0)
+#define FreqTuple_get1(t) (&(t)->z1)
+#define FreqTuple_get2(t) (&(t)->z2)
+static inline cplx *CplxVec_at(CplxVec *v, unsigned long i)
+{
+  __CPROVER_assert(i < v->size, "std::vector<ComplexType>::operator[] inside the vector");
+  if (i == v->gidx) v->ghits++;
+  return &v->data[i];
+}
+static inline unsigned long CplxVec_size(CplxVec *v) { return v->size; }
+//@type std::vector<boost::(tuples::)?tuple<std::complex<double>, std::complex<double>, std::complex<double>.*|(Pomerol::)?freq_vec_t|std::vector<(Pomerol::)?freq_tuple(, .*)?> => FreqVec ptr
+//@type boost::(tuples::)?tuple<std::complex<double>, std::complex<double>, std::complex<double>.*|(Pomerol::)?freq_tuple|boost::tuples::cons<std::complex<double>, boost::tuples::cons<std::complex<double>, boost::tuples::cons<std::complex<double>, boost::tuples::null_type> ?> ?> => FreqTuple ptr
+//@type std::vector<std::complex<double>(, std::allocator<std::complex<double> ?>)?>|std::vector<(Pomerol::)?ComplexType(, .*)?> => CplxVec ptr
+//@free get~element<0UL => FreqTuple_get0
+//@free get~element<1UL => FreqTuple_get1
+//@free get~element<2UL => FreqTuple_get2
+//@struct Pomerol::ComputeAndClearWrap
+/* callee contracts of the part (TwoParticleGFPart::compute: tpgfcompute.c; operator(): tpgfpart.c -- throws unless Computed; clear()) */
+static inline void TwoParticleGFPart_compute(struct TwoParticleGFPart *p) { p->n_compute++; p->Status = Computed; }
+static inline void TwoParticleGFPart_clear(struct TwoParticleGFPart *p) { p->n_clear++; p->evals_at_clear = p->n_eval; REACH("clear"); }
+cplx TwoParticleGFPart_call_in_run(struct TwoParticleGFPart *part, cplx z1, cplx z2, cplx z3)
+{
+  __CPROVER_assert(part == g_wrap->p, "C02: the wrapper evaluates its own part");
+  __CPROVER_assert(part->n_compute == 1 && part->Status == Computed && part->n_clear == 0, "C02: the part is evaluated after compute() and before clear()");
+  part->n_eval++;
+  REACH("part_eval_in_run");
+  return part_value(0, z1, z2, z3);
+}
+unsigned long g_old_re, g_old_im, g_new_re, g_new_im;   /* bit patterns of data[gidx] before / expected after (calls are not allowed in loop invariants) */
+/* bit pattern of a double VALUE (no pointer cast into the heap array: that explodes) */
+#define BITSV(x) (((union { double d; unsigned long u; }){ .d = (x) }).u)
+#define W_GHOST(self) ((self)->data_->gidx < (self)->data_->size)
+#define W_DATA(self) ((self)->data_->data[(self)->data_->gidx])
+#define W_FREQ(self) ((self)->freqs_->data[(self)->data_->gidx])
+//@function Pomerol::ComputeAndClearWrap::run() as ComputeAndClearWrap_run
+//@contract
+__CPROVER_requires(__CPROVER_is_fresh(self, sizeof(*self)) && g_wrap == self)
+__CPROVER_requires(__CPROVER_is_fresh(self->p, sizeof(*self->p)) && __CPROVER_is_fresh(self->freqs_, sizeof(*self->freqs_)) && __CPROVER_is_fresh(self->data_, sizeof(*self->data_)))
+__CPROVER_requires(self->freqs_->size <= FV_MAX && __CPROVER_is_fresh(self->freqs_->data, self->freqs_->size * sizeof(FreqTuple)) &&
+                   __CPROVER_is_fresh(self->data_->data, self->data_->size * sizeof(cplx)))
+/* how TwoParticleGF::compute builds the wrapper: the table has one slot per frequency */
+__CPROVER_requires(self->data_->size == self->freqs_->size)
+__CPROVER_requires(self->p->n_compute == 0 && self->p->n_eval == 0 && self->p->n_clear == 0 && self->data_->ghits == 0)
+__CPROVER_requires(!W_GHOST(self) || (g_old_re == d_bits(W_DATA(self).re) && g_old_im == d_bits(W_DATA(self).im)))
+__CPROVER_requires(!W_GHOST(self) || (g_new_re == d_bits(op_add_cplx_cplx(W_DATA(self), part_value(0, W_FREQ(self).z0, W_FREQ(self).z1, W_FREQ(self).z2)).re) &&
+                                      g_new_im == d_bits(op_add_cplx_cplx(W_DATA(self), part_value(0, W_FREQ(self).z0, W_FREQ(self).z1, W_FREQ(self).z2)).im)))
+__CPROVER_assigns(self->p->n_compute, self->p->Status, self->p->n_eval, self->p->n_clear, self->p->evals_at_clear, self->data_->ghits, __CPROVER_object_whole(self->data_->data))
+/* computed first, once; evaluated once per frequency iff fill; cleared once, after the evaluations, iff clear */
+__CPROVER_ensures(self->p->n_compute == 1 && self->p->n_eval == (self->fill_ ? self->freqs_->size : 0UL))
+__CPROVER_ensures(self->p->n_clear == (self->clear_ ? 1UL : 0UL) && (!self->clear_ || self->p->evals_at_clear == self->p->n_eval))
+/* the ghost slot: accessed once and equal to old + part(freqs[gidx]) iff fill, untouched otherwise; length unchanged (frame) */
+__CPROVER_ensures(!W_GHOST(self) || (self->fill_ ? (self->data_->ghits == 1 && BITSV(W_DATA(self).re) == g_new_re && BITSV(W_DATA(self).im) == g_new_im)
+                                                 : (self->data_->ghits == 0 && BITSV(W_DATA(self).re) == g_old_re && BITSV(W_DATA(self).im) == g_old_im)))
+//@loop 1
+__CPROVER_assigns(w, self->p->n_eval, self->data_->ghits, __CPROVER_object_whole(self->data_->data))
+__CPROVER_loop_invariant(0 <= w && w <= wsize && (unsigned long)wsize == self->freqs_->size && self->p->n_eval == (unsigned long)w)
+__CPROVER_loop_invariant(!W_GHOST(self) || ((unsigned long)w <= self->data_->gidx
+       ? (self->data_->ghits == 0 && BITSV(W_DATA(self).re) == g_old_re && BITSV(W_DATA(self).im) == g_old_im)
+       : (self->data_->ghits == 1 && BITSV(W_DATA(self).re) == g_new_re && BITSV(W_DATA(self).im) == g_new_im)))
+__CPROVER_decreases(wsize - w)
+//@end
+
+//@harness h_CACW_run enforce=ComputeAndClearWrap_run props=C02,C17 min_obl=100 timeout=300 reach=4
+void h_CACW_run(void) { struct ComputeAndClearWrap *wr; ComputeAndClearWrap_run(wr); REACH("exit"); }
